@@ -6,6 +6,7 @@ c_Zones == {[std |-> 0, dst |-> 0, from |-> 0, to |-> 0],          \* UTC
             [std |-> -8, dst |-> -8, from |-> 0, to |-> 0],        \* fixed negative
             [std |-> 1, dst |-> 2, from |-> 150, to |-> 350],      \* northern DST
             [std |-> 10, dst |-> 11, from |-> -1000, to |-> 150],  \* southern DST, first part
-            [std |-> 10, dst |-> 11, from |-> 350, to |-> 1000]}   \* southern DST, second part
+            [std |-> 10, dst |-> 11, from |-> 350, to |-> 1000],   \* southern DST, second part
+            [std |-> -4, dst |-> -3, from |-> 150, to |-> 350]}    \* negative offsets with DST
 c_Sizes == {0, 1, 1048577}
 ====
